@@ -41,7 +41,13 @@ template <typename PixelReference>
 struct my_interleaved_pixel_iterator_type_from_pixel_reference
 {
 private:
-    using pixel_t = typename std::remove_reference<PixelReference>::type::value_type;
+    using value_t = typename std::remove_reference<PixelReference>::type::value_type;
+    // a tile holds the samples in the order of the colour space (as a strip does), whatever the channel order of the view
+    using pixel_t = pixel
+        <
+            typename channel_type<value_t>::type,
+            layout<typename color_space_type<value_t>::type>
+        >;
 
 public:
     using type = typename iterator_type_from_pixel
